@@ -42,6 +42,20 @@ def set_overloads(ctx, toks):
         out.append(t); i += 1
     return out
 UNITS['Variant_assign_variant_from'] = m(r'void\s+Variant::assign_variant_from\s*\(', pre_rules=[set_overloads])
+TC = {'do_write_value': {'bool': 'do_write_value_bool', 'int32_t': 'do_write_value_int32', 'uint32_t': 'do_write_value_uint32', 'int64_t': 'do_write_value_int64', 'uint64_t': 'do_write_value_uint64',
+                         'const char *': 'do_write_value_cstr', 'double': 'do_write_value_double'}}
+PROP_UNITS = {'PropertyHDF5_values_set': dict(file='backend/hdf5/PropertyHDF5.cpp', locator=r'void\s+PropertyHDF5::values\s*\((?=\s*const\s+std::vector<Variant>\s*&)', cls='PropertyHDF5', cls_file='backend/hdf5/PropertyHDF5.hpp',
+                                              classes=['Variant', 'DataSet', 'NDSize', 'H5DataType'], template_calls=TC, bounded_twin=True,
+                                              loops={0: '__CPROVER_assigns(_i_value, nix_exc)\n'
+                                                        '__CPROVER_loop_invariant(_i_value <= values->n && nix_exc == EXC_NONE && (ghost_k < _i_value ==> values->data[ghost_k].dtype == dt))\n'
+                                                        '__CPROVER_decreases(values->n - _i_value)'})}
+PROP_EXTRA = 'DataType gh_dset_type; int gh_extent_calls, gh_writes, gh_delete_calls; ndsize_t gh_extent_n; DataType gh_write_type;\n'
+PROP_JOBS = [dict(name='PropertyHDF5_values_set', bodies=['PropertyHDF5_values_set'], enforce=['PropertyHDF5_values_set'], replace=[], includes=['c14_prop.h'], extra_c=PROP_EXTRA,
+                  loop_contracts=True, expect_kinds=['postcondition', 'loop_invariant_base', 'loop_invariant_step'], timeout=600),
+             dict(name='PropertyHDF5_values_set[bounded]', bodies=['PropertyHDF5_values_set'], enforce=['PropertyHDF5_values_set'], replace=[], includes=['c14_prop.h'], extra_c=PROP_EXTRA,
+                  defines=['NIX_NO_LOOP_CONTRACTS', 'PROP_BOUNDED=4'], cbmc_flags=['--unwind', '6', '--unwinding-assertions'], expect_kinds=['postcondition', 'unwind'], timeout=600,
+                  bounded='value lists of at most 4 entries, loop unwound completely (twin without loop contract)')]
+UNITS.update(PROP_UNITS)
 FL = ['--malloc-may-fail', '--malloc-fail-null']
 def job(fn, replace=(), **kw):
     d = dict(name=fn, bodies=[fn], enforce=[fn], replace=list(replace), expect_kinds=['postcondition'], timeout=300, cbmc_flags=FL, object_bits=8); d.update(kw); return d
@@ -51,7 +65,8 @@ JOBS = [job('Variant_maybe_deallocte_string')] + \
        [job('Variant_get_' + t, ['Variant_check_argument_type']) for t in ('bool', 'int32', 'uint32', 'int64', 'uint64', 'double')] + \
        [job('Variant_supports_type'), job('Variant_set_cstr_len', cbmc_flags=FL + ['--unwind', '18', '--unwinding-assertions'], bounded='string length < 16 (memcpy of a symbolic length)'),
         job('Variant_assign_variant_from', ['Variant_set_' + t for t in ('bool', 'int32', 'uint32', 'int64', 'uint64', 'double', 'none', 'cstr')])]
-SPEC = dict(contracts=['c14_variant.h'], stubs=[], units=UNITS, jobs=JOBS,
+JOBS += PROP_JOBS
+SPEC = dict(contracts=['c14_variant.h', 'c14_prop.h'], stubs=[], include_order=['c14_variant.h'], units=UNITS, jobs=JOBS,
             trusted_base=['CBMC 6.11.0 (C front end, --dfcc, SAT back end; malloc/realloc/free/memcpy models of the CPROVER library, malloc may fail and return NULL)',
                           'vlib/cxx2c.py idiom map'],
             assumptions=['string blocks shorter than 16 bytes in the jobs that inspect string contents (set(const char*, len)) - labelled bounded',
